@@ -14,7 +14,8 @@ Proved here, for all grids, atoms, weights and integer shifts:
   output is the DC symbol times the sum of the input (`multiplier_sum`);
 * finite projection (numba kernel): the pixels touched by an atom move with it and the distances at which the radial
   function is evaluated do not change (`radial_hits_shift`, unclipped part).
-Partial: supercell repetition (`…_partial` at the end).
+* the delta array of an `R₀ × R₁` supercell is the `np.tile` of the unit-cell delta array (`deltas_tile`).
+Partial: supercell repetition of the *potential* (the multiplier step; `…_partial` at the end).
 -/
 import AbtemVerif.Model.Deltas
 import AbtemVerif.Lib.DFT
@@ -311,14 +312,174 @@ theorem radial_hits_shift (s0 s1 x y : Rat) (hs0 : s0 ≠ 0) (hs1 : s1 ≠ 0) (a
   unfold radialDist2 radialK radialM
   push_cast; ring
 
+/-! ### supercell repetition: the delta array of the repeated cell is the tiled delta array -/
+
+/-- among the `R` copies `t + r·n` (`r < R`) exactly one falls on pixel `i` of the `R·n` grid when `t ≡ i (mod n)`,
+and none otherwise -/
+lemma copies_hit_once (n R : Nat) (hn : 0 < n) (hR : 0 < R) (t i : Int) (hi0 : 0 ≤ i) (hi1 : i < (R * n : Nat)) (v : Rat) :
+    ∑ r ∈ range R, (if (t + (r : Int) * n) % ((R * n : Nat) : Int) = i then v else 0)
+      = if t % (n : Int) = i % (n : Int) then v else 0 := by
+  have hRn : ((R * n : Nat) : Int) = (R : Int) * n := by push_cast; ring
+  by_cases h : t % (n : Int) = i % (n : Int)
+  · rw [if_pos h]
+    -- i - t = n * q
+    obtain ⟨q, hq⟩ : ∃ q : Int, i - t = n * q := by
+      have hd : (n : Int) ∣ i - t := Int.dvd_of_emod_eq_zero (by
+        rw [Int.sub_emod, h]; simp)
+      exact hd
+    have key : ∀ r : Nat, r < R → ((t + (r : Int) * n) % ((R * n : Nat) : Int) = i ↔ (r : Int) = q % (R : Int)) := by
+      intro r hr
+      rw [hRn]
+      constructor
+      · intro hm
+        have hd : ((R : Int) * n) ∣ (t + (r : Int) * n - i) := Int.dvd_self_sub_of_emod_eq hm
+        have e : t + (r : Int) * n - i = n * ((r : Int) - q) := by linarith [hq]
+        rw [e, mul_comm (R : Int) n] at hd
+        have hd' : (R : Int) ∣ (r : Int) - q := (Int.mul_dvd_mul_iff_left (by omega)).mp hd
+        have : ((r : Int) - q) % (R : Int) = 0 := Int.emod_eq_zero_of_dvd hd'
+        have h2 : (r : Int) % (R : Int) = q % (R : Int) := Int.emod_eq_emod_iff_emod_sub_eq_zero.mpr this
+        rw [← h2, Int.emod_eq_of_lt (by omega) (by omega)]
+      · intro hr'
+        have e : t + (r : Int) * n = i + n * ((r : Int) - q) := by linarith [hq]
+        have hd : (R : Int) ∣ (r : Int) - q := by
+          apply Int.dvd_of_emod_eq_zero
+          rw [Int.sub_emod, hr', Int.emod_emod_of_dvd _ (dvd_refl _)]; simp
+        obtain ⟨z, hz⟩ := hd
+        rw [e, hz, show i + n * ((R : Int) * z) = i + (R : Int) * n * z by ring, Int.add_mul_emod_self_left]
+        exact Int.emod_eq_of_lt hi0 (by rw [← hRn]; exact hi1)
+    have hq0 : 0 ≤ q % (R : Int) := Int.emod_nonneg _ (by omega)
+    have hq1 : q % (R : Int) < R := Int.emod_lt_of_pos _ (by omega)
+    rw [Finset.sum_eq_single_of_mem (q % (R : Int)).toNat (by rw [mem_range]; omega)]
+    · rw [if_pos ((key _ (by omega)).mpr (by omega))]
+    · intro r hr hne
+      rw [mem_range] at hr
+      rw [if_neg]
+      intro hm
+      apply hne
+      have := (key r hr).mp hm
+      omega
+  · rw [if_neg h]
+    apply Finset.sum_eq_zero
+    intro r _
+    rw [if_neg]
+    intro hm
+    apply h
+    have : (t + (r : Int) * n) % (n : Int) = i % (n : Int) := by
+      rw [← hm, hRn, Int.emod_emod_of_dvd _ (Dvd.intro_left _ rfl)]
+    rw [← this, Int.add_mul_emod_self_right]
+
+/-- raw (unreduced) updates of one atom in the sub-pixel branch: target indices before `% shape`, and the weights -/
+def rawUpdates (p : Rat × Rat) (w : Rat) : List (Int × Int × Rat) :=
+  let r := p.1.floor; let c := p.2.floor
+  let x := p.1 - r; let y := p.2 - c
+  [(r, c, (1 + x * y - y - x) * w), (r + 1, c, (x - x * y) * w), (r, c + 1, (y - x * y) * w), (r + 1, c + 1, (x * y) * w)]
+
+lemma atomUpdates_raw (n0 n1 : Nat) (h0 : 0 < n0) (h1 : 0 < n1) (p : Rat × Rat) (w : Rat) :
+    atomUpdates n0 n1 false p w = (rawUpdates p w).map fun t => ⟨t.1 % (n0 : Int), t.2.1 % (n1 : Int), t.2.2⟩ := by
+  rw [atomUpdates_subpixel]
+  simp [rawUpdates, pyMod_pos _ _ h0, pyMod_pos _ _ h1]
+
+lemma rawUpdates_shift (p : Rat × Rat) (w : Rat) (a b : Int) :
+    rawUpdates (p.1 + a, p.2 + b) w = (rawUpdates p w).map fun t => (t.1 + a, t.2.1 + b, t.2.2) := by
+  simp only [rawUpdates, floor_add_int, List.map_cons, List.map_nil]
+  have hx : p.1 + (a : Rat) - ((p.1.floor + a : Int) : Rat) = p.1 - (p.1.floor : Rat) := by push_cast; ring
+  have hy : p.2 + (b : Rat) - ((p.2.floor + b : Int) : Rat) = p.2 - (p.2.floor : Rat) := by push_cast; ring
+  have f0 : p.1.floor + a + 1 = p.1.floor + 1 + a := by ring
+  have f1 : p.2.floor + b + 1 = p.2.floor + 1 + b := by ring
+  simp only [hx, hy, f0, f1]
+
+lemma accumulate_append (l1 l2 : List Update) (i j : Int) :
+    accumulate (l1 ++ l2) i j = accumulate l1 i j + accumulate l2 i j := by
+  simp [accumulate]
+
+lemma accumulate_flatMap {β : Type} (l : List β) (f : β → List Update) (i j : Int) :
+    accumulate (l.flatMap f) i j = (l.map fun b => accumulate (f b) i j).sum := by
+  induction l with
+  | nil => simp [accumulate]
+  | cons b l ih => simp [List.flatMap_cons, accumulate_append, ih]
+
+lemma list_range_sum (R : Nat) (f : Nat → Rat) : ((List.range R).map f).sum = ∑ r ∈ range R, f r := by
+  induction R with
+  | zero => simp
+  | succ R ih => rw [List.range_succ, List.map_append, List.sum_append, ih, Finset.sum_range_succ]; simp
+
+/-- two-dimensional version of `copies_hit_once` -/
+lemma copies_hit_once_2d (n0 n1 R0 R1 : Nat) (h0 : 0 < n0) (h1 : 0 < n1) (hR0 : 0 < R0) (hR1 : 0 < R1)
+    (t0 t1 i j : Int) (hi : 0 ≤ i ∧ i < (R0 * n0 : Nat)) (hj : 0 ≤ j ∧ j < (R1 * n1 : Nat)) (v : Rat) :
+    ∑ r0 ∈ range R0, ∑ r1 ∈ range R1,
+        (if (t0 + (r0 : Int) * n0) % ((R0 * n0 : Nat) : Int) = i ∧ (t1 + (r1 : Int) * n1) % ((R1 * n1 : Nat) : Int) = j then v else 0)
+      = if t0 % (n0 : Int) = i % (n0 : Int) ∧ t1 % (n1 : Int) = j % (n1 : Int) then v else 0 := by
+  have inner : ∀ r0 : Nat, ∑ r1 ∈ range R1,
+        (if (t0 + (r0 : Int) * n0) % ((R0 * n0 : Nat) : Int) = i ∧ (t1 + (r1 : Int) * n1) % ((R1 * n1 : Nat) : Int) = j then v else 0)
+      = if (t0 + (r0 : Int) * n0) % ((R0 * n0 : Nat) : Int) = i then (if t1 % (n1 : Int) = j % (n1 : Int) then v else 0) else 0 := by
+    intro r0
+    by_cases hA : (t0 + (r0 : Int) * n0) % ((R0 * n0 : Nat) : Int) = i
+    · simp only [hA, true_and, if_true]
+      exact copies_hit_once n1 R1 h1 hR1 t1 j hj.1 hj.2 v
+    · simp only [hA, false_and, if_false, Finset.sum_const_zero]
+  simp only [inner]
+  rw [copies_hit_once n0 R0 h0 hR0 t0 i hi.1 hi.2]
+  by_cases hA : t0 % (n0 : Int) = i % (n0 : Int) <;> simp [hA]
+
+/-- the atoms of the `R0 × R1` supercell of an `n0 × n1`-pixel cell (positions in pixels of the common sampling) -/
+def supercell (n0 n1 R0 R1 : Nat) (atoms : List ((Rat × Rat) × Rat)) : List ((Rat × Rat) × Rat) :=
+  atoms.flatMap fun a => (List.range R0).flatMap fun (r0 : Nat) => (List.range R1).map fun (r1 : Nat) =>
+    ((a.1.1 + (((r0 : Int) * (n0 : Int) : Int) : Rat), a.1.2 + (((r1 : Int) * (n1 : Int) : Int) : Rat)), a.2)
+
+lemma raw_copies_sum (n0 n1 R0 R1 : Nat) (h0 : 0 < n0) (h1 : 0 < n1) (hR0 : 0 < R0) (hR1 : 0 < R1)
+    (i j : Int) (hi : 0 ≤ i ∧ i < (R0 * n0 : Nat)) (hj : 0 ≤ j ∧ j < (R1 * n1 : Nat)) (L : List (Int × Int × Rat)) :
+    ∑ r0 ∈ range R0, ∑ r1 ∈ range R1, (L.map fun t =>
+        if (t.1 + (r0 : Int) * n0) % ((R0 * n0 : Nat) : Int) = i ∧ (t.2.1 + (r1 : Int) * n1) % ((R1 * n1 : Nat) : Int) = j
+        then t.2.2 else 0).sum
+      = (L.map fun t => if t.1 % (n0 : Int) = i % (n0 : Int) ∧ t.2.1 % (n1 : Int) = j % (n1 : Int) then t.2.2 else 0).sum := by
+  induction L with
+  | nil => simp
+  | cons t L ih =>
+    simp only [List.map_cons, List.sum_cons, Finset.sum_add_distrib]
+    rw [ih, copies_hit_once_2d n0 n1 R0 R1 h0 h1 hR0 hR1 t.1 t.2.1 i j hi hj t.2.2]
+
+/-- `deltas_tile`: the delta array of the `R0 × R1` supercell on the `R0·n0 × R1·n1` grid is the tiled delta array of the
+unit cell (`np.tile`), for every cell, repetition, atom list and weights. -/
+theorem deltas_tile (n0 n1 R0 R1 : Nat) (h0 : 0 < n0) (h1 : 0 < n1) (hR0 : 0 < R0) (hR1 : 0 < R1)
+    (atoms : List ((Rat × Rat) × Rat)) (i j : Int) (hi : 0 ≤ i ∧ i < (R0 * n0 : Nat)) (hj : 0 ≤ j ∧ j < (R1 * n1 : Nat)) :
+    superposeDeltas (R0 * n0) (R1 * n1) false (supercell n0 n1 R0 R1 atoms) i j
+      = tile n0 n1 (superposeDeltas n0 n1 false atoms) i j := by
+  have hN0 : 0 < R0 * n0 := Nat.mul_pos hR0 h0
+  have hN1 : 0 < R1 * n1 := Nat.mul_pos hR1 h1
+  unfold superposeDeltas tile supercell
+  dsimp only
+  rw [List.flatMap_assoc, accumulate_flatMap, accumulate_flatMap]
+  congr 1
+  apply List.map_congr_left
+  intro a _
+  rw [List.flatMap_assoc, accumulate_flatMap, list_range_sum]
+  have step : ∀ r0 : Nat, accumulate (((List.range R1).map fun (r1 : Nat) =>
+        ((a.1.1 + (((r0 : Int) * (n0 : Int) : Int) : Rat), a.1.2 + (((r1 : Int) * (n1 : Int) : Int) : Rat)), a.2)).flatMap
+          fun b => atomUpdates (R0 * n0) (R1 * n1) false b.1 b.2) i j
+      = ∑ r1 ∈ range R1, ((rawUpdates a.1 a.2).map fun t =>
+          if (t.1 + (r0 : Int) * n0) % ((R0 * n0 : Nat) : Int) = i ∧ (t.2.1 + (r1 : Int) * n1) % ((R1 * n1 : Nat) : Int) = j
+          then t.2.2 else 0).sum := by
+    intro r0
+    rw [List.flatMap_map, accumulate_flatMap, list_range_sum]
+    apply Finset.sum_congr rfl
+    intro r1 _
+    rw [atomUpdates_raw _ _ hN0 hN1]
+    rw [rawUpdates_shift a.1 a.2 ((r0 : Int) * (n0 : Int)) ((r1 : Int) * (n1 : Int))]
+    simp only [accumulate, List.map_map, Nat.cast_mul]
+    rfl
+  simp only [step]
+  rw [raw_copies_sum n0 n1 R0 R1 h0 h1 hR0 hR1 i j hi hj, atomUpdates_raw _ _ h0 h1]
+  simp only [accumulate, List.map_map]
+  first | done | (congr 1)
+
 /- Full statement for supercell repetition (not proved as a whole): the potential of the `R₀ × R₁` repeated cell on
    the `R₀ n₀ × R₁ n₁` grid equals `np.tile` of the unit-cell potential, for both projections, and `CrystalPotential`
    yields the same slices.
-   Proved: on the big grid, an atom copy translated by whole unit cells `(r₀ n₀, r₁ n₁)` writes the rolled updates
-   (`deltas_pixel_shift` with `a = r₀ n₀`), and `tile` is periodic with the unit cell.
+   Proved: the delta array of the supercell is the tiled delta array of the unit cell (`deltas_tile`: exactly one of the
+   `R₀ R₁` copies of every update reaches each pixel of the big grid), and `tile` is periodic with the unit cell.
    Missing: that the multiplier sampled on the finer reciprocal grid of the supercell reproduces the unit-cell
-   multiplier on the sub-lattice (needs the sampled scattering factor), the counting argument that exactly one copy
-   reaches each tile, `pad_atoms` images for finite projections, and the slice bookkeeping of
+   multiplier on the sub-lattice (needs the sampled scattering factor: a tiled array only has Fourier coefficients on the
+   sub-lattice, where the two samplings of `f/sinc` must agree), `pad_atoms` images for finite projections, and the slice bookkeeping of
    `CrystalPotential.generate_slices` (C10).  These are checked by the conformance oracle only. -/
 theorem supercell_tile_partial (n0 n1 : Nat) (v : Int → Int → Rat) (i j r0 r1 : Int) :
     tile n0 n1 v (i + r0 * n0) (j + r1 * n1) = tile n0 n1 v i j := by
